@@ -120,6 +120,85 @@ bool run(const std::vector<std::string>& t, bool g, std::string& out)
         }
         out = tmp; return true;
     }
+    if (op == "x.info" && nt == 4) {
+        Buf d(t[1], g);
+        const_bitspan s(d.p, d.n, num(t[2]));
+        const std::size_t a = num(t[3]);
+        out = "ok " + std::to_string(s.size()) + " " + std::to_string(s.offset()) + " " + std::to_string(s.offset_bytes()) + " "
+              + std::to_string(s.offset_bytes_ceil()) + " " + std::to_string(s.offset_misalignment(a)) + " "
+              + (s.offset_alings_to(a) ? "1" : "0") + " " + (s.offset_alings_to_byte() ? "1" : "0");
+        return true;
+    }
+    if (op == "x.atoff" && nt == 4) {
+        Buf d(t[1], g);
+        bitspan s(d.p, d.n, num(t[2]));
+        const bitspan r = s.at_offset(num(t[3]));
+        bitspan s2 = s; s2.add_offset(num(t[3]));           // the in-place variant must agree with the copying one
+        bitspan s3 = s; s3.set_offset(s.offset() + num(t[3]));
+        if (s2.offset() != r.offset() || s2.size() != r.size() || s3.offset() != r.offset() || s3.size() != r.size()) { out = "ok add_offset/set_offset differ from at_offset"; return true; }
+        out = "ok " + std::to_string(r.offset()) + " " + std::to_string(r.size()); return true;
+    }
+    if ((op == "x.sub1" || op == "x.subbytes") && nt == 4) {
+        Buf d(t[1], g);
+        const_bitspan s(d.p, d.n, num(t[2]));
+        const_bitspan r = (op == "x.sub1") ? s.subspan(num(t[3])) : s.subspan_bytes(num(t[3]));
+        std::uint8_t first[8] = {0, 0, 0, 0, 0, 0, 0, 0};
+        const std::size_t nbits = (r.size() < 64U) ? r.size() : 64U;
+        if (d.n > 0U) { r.getBits(bytespan(first, 8), nbits); }    // (the header asserts a non-null data pointer)
+        static const char* hd = "0123456789abcdef";
+        std::string h;
+        for (int i = 0; i < 8; i++) { h += hd[first[i] >> 4]; h += hd[first[i] & 15]; }
+        out = "ok " + std::to_string(r.offset()) + " " + std::to_string(r.size()) + " ok " + h; return true;
+    }
+    if (op == "x.aref" && nt == 4) {
+        Buf d(t[1], g);
+        // (a non-const const_bitspan object would select the non-const overload, which does not compile for const data)
+        const const_bitspan s(d.p, d.n, num(t[2]));
+        const std::uint8_t& r = s.aligned_ref(num(t[3]));
+        const std::uint8_t* q = s.aligned_ptr(num(t[3]));
+        if (q != &r) { out = "ok aligned_ptr differs from &aligned_ref"; return true; }
+        out = "ok " + std::to_string(static_cast<std::size_t>(q - d.p)) + " " + std::to_string(static_cast<unsigned>(r)); return true;
+    }
+    if (op == "x.copyall" && nt == 5) {
+        Buf dst(t[1], g), src(t[3], g);
+        const_bitspan(src.p, src.n, num(t[4])).copyTo(bitspan(dst.p, dst.n, num(t[2])));
+        out = std::string((dst.ok() && src.ok()) ? "ok " : "GUARD ") + dst.hex(); return true;
+    }
+    if (op == "x.zeroall" && nt == 3) {
+        Buf d(t[1], g);
+        const int rc = rc_of(bitspan(d.p, d.n, num(t[2])).setZeros());
+        out = std::string(d.ok() ? "ok " : "GUARD ") + std::to_string(rc) + " " + d.hex(); return true;
+    }
+    if (op.rfind("x.align", 0) == 0 && nt == 2) {
+        static const std::uint8_t dummy[1] = {0};
+        const_bitspan s(dummy, 0, num(t[1]));
+        const int n = std::atoi(op.c_str() + 7);
+        if (n == 8) { s.align_offset_to<8>(); } else if (n == 16) { s.align_offset_to<16>(); } else if (n == 32) { s.align_offset_to<32>(); }
+        else if (n == 64) { s.align_offset_to<64>(); } else { return false; }
+        out = "ok " + std::to_string(s.offset()); return true;
+    }
+    if (op.rfind("x.setf", 0) == 0 && nt == 4) {
+        const int w = std::atoi(op.c_str() + 6);
+        if (w != 32 && w != 64) { return false; }
+        Buf d(t[1], g);
+        bitspan s(d.p, d.n, num(t[2]));
+        const std::uint64_t bits = std::strtoull(t[3].c_str(), nullptr, 10);
+        int rc;
+        if (w == 32) { const auto b32 = static_cast<std::uint32_t>(bits); float v; std::memcpy(&v, &b32, 4); rc = rc_of(s.setF32(v)); }
+        else         { double v; std::memcpy(&v, &bits, 8); rc = rc_of(s.setF64(v)); }
+        out = std::string(d.ok() ? "ok " : "GUARD ") + std::to_string(rc) + " " + d.hex(); return true;
+    }
+    if (op.rfind("x.getf", 0) == 0 && nt == 3) {
+        const int w = std::atoi(op.c_str() + 6);
+        if (w != 32 && w != 64) { return false; }
+        Buf d(t[1], g);
+        const_bitspan s(d.p, d.n, num(t[2]));
+        std::uint64_t bits = 0;
+        if (w == 32) { const float v = s.getF32(); std::uint32_t b32; std::memcpy(&b32, &v, 4); bits = b32; }
+        else         { const double v = s.getF64(); std::memcpy(&bits, &v, 8); }
+        std::snprintf(tmp, sizeof(tmp), "ok %" PRIu64, bits);
+        out = tmp; return true;
+    }
     return false;
 }
 }  // namespace
